@@ -66,10 +66,14 @@ PROPS = {
                 technique='contract-based verification: Kani function contracts (Hoare triples) on SocketStats::update and on every send_to call site',
                 explanation='SocketStats::update is verified over its full domain (any prior counters below 2^63, any Ok(w)/Err(kind), any len): complete, loop-free. Every send_to in udp.rs/unix.rs is shown to be wrapped by update with the buffer length (sink triples, buffer length symbolic 0..=64 => bounded list), and the adapter shares the sink counters (Arc identity). The lift to "at any quiescent moment, under concurrent emitters" is the commutativity of atomic fetch_add, which is assumed (atomicity of RMW), not explored.',
                 assumptions=KANI_ASSUME + ['atomic fetch_add is atomic; additions commute, so totals are schedule-independent (not machine-checked)', 'counters stay below 2^64 (they wrap silently by definition)']),
+    'C18': dict(level='other', engine='kani', units=lambda tier: [kani(['state_c18'])],
+                technique='contract-based verification: rely/guarantee contracts on the atomic and cell primitives (cfg-guarded shim with ghost protocol state), each real SingletonHolder method proved by Kani under arbitrary interference',
+                explanation='Each of the three real methods (get, is_set, set) is loop-free and is verified by Kani for EVERY interference pattern allowed by the protocol (other threads may elect themselves / publish before each of my atomic operations). The shim asserts the guarantee on every primitive operation: election only by compare_exchange(UNSET->LOADING) with at least Acquire, the single plain store publishes COMPLETE with at least Release after the cell was written by the elected writer, the cell is touched only by the elected writer before publication or after an Acquire load that observed COMPLETE. Functional postconditions: first set wins, later sets change nothing, reads report not-set until completion, every get returns the same instance. From these, "every read happens-after the initialising write" follows by thread-modular (rely/guarantee) reasoning plus the C11 rule that an acquire load reading from a release store synchronises-with it: that meta-argument is TRUSTED, no interleaving or weak-memory execution is explored.',
+                assumptions=KANI_ASSUME + ['soundness of rely/guarantee reasoning; C11 release/acquire gives happens-before (trusted, not machine-checked)', 'hook H1: the pass-through shim forwards every operation unchanged to std']),
     'C19': dict(level='proof', units=lambda tier: [verus(IO, ['greedy', 'spec', 'model'])],
                 explanation='Unbounded deductive proof (Verus) of the socket-activity postconditions (attempt counter of the socket model) under the exact-accounting invariant.',
                 assumptions=STD_ASSUME + [BUFWRITER]),
 }
 
 NOT_APPLICABLE = {}
-HOOK_COMMITS = []
+HOOK_COMMITS = ['7b4bfc6', '24da86b']
